@@ -1,7 +1,393 @@
-use crate::ops::RunDesc;
-pub fn gen(prop: &str, seed: u64, _stack: bool) -> RunDesc {
-    crate::gen::gen_interp_run(prop, "todo", seed, crate::gen::Profile::Ebr)
+//! CHAIN (C06, C07): long chains / trees / combs built from a dedicated payload and destroyed
+//! by dropping the last reference to the head. C06 measures reclamation latency in *epoch
+//! advances* (the simulated clock), C07 the stack the destruction needs, on threads with
+//! configurable stack sizes, inside a crash-contained child process.
+
+use std::sync::atomic::{AtomicU64, AtomicUsize, Ordering::*};
+use std::sync::Arc;
+
+use circ::{AtomicRc, Rc, RcObject};
+
+use crate::json::J;
+use crate::ops::*;
+use crate::rng::Rng;
+use crate::sched::{self, sim, user_yield, Monitor, Outcome, ThreadSpec, Violation};
+
+static DROPS: AtomicU64 = AtomicU64::new(0);
+static LAST_DROP_EPOCH: AtomicU64 = AtomicU64::new(0);
+static STACK_MIN: AtomicUsize = AtomicUsize::new(usize::MAX);
+static STACK_MAX: AtomicUsize = AtomicUsize::new(0);
+static HELD_FROM: AtomicU64 = AtomicU64::new(u64::MAX);
+static HELD_VIOLATED: AtomicU64 = AtomicU64::new(u64::MAX);
+static MAX_DEPTH_SEEN: AtomicU64 = AtomicU64::new(0);
+static REDEFERS: AtomicU64 = AtomicU64::new(0);
+static CREATED: AtomicU64 = AtomicU64::new(0);
+
+pub struct CNode {
+    next: [AtomicRc<CNode>; 2],
+    id: u64,
 }
-pub fn run(_desc: &RunDesc) -> ! {
-    unimplemented!()
+
+unsafe impl RcObject for CNode {
+    fn pop_edges(&mut self, out: &mut Vec<Rc<Self>>) {
+        out.push(self.next[0].take());
+        out.push(self.next[1].take());
+    }
+}
+
+impl Drop for CNode {
+    fn drop(&mut self) {
+        let probe = 0u8;
+        let a = &probe as *const u8 as usize;
+        STACK_MIN.fetch_min(a, Relaxed);
+        STACK_MAX.fetch_max(a, Relaxed);
+        DROPS.fetch_add(1, Relaxed);
+        LAST_DROP_EPOCH.store(crate::runner::clock(), Relaxed);
+        if self.id >= HELD_FROM.load(Relaxed) && HELD_VIOLATED.load(Relaxed) == u64::MAX {
+            HELD_VIOLATED.store(self.id, Relaxed);
+        }
+    }
+}
+
+struct CMon;
+impl Monitor for CMon {
+    fn event(&mut self, _tid: usize, kind: u32, _a: usize, b: usize, c: usize) {
+        if kind == circ::verif::kind::RECLAIM_NOW {
+            MAX_DEPTH_SEEN.fetch_max(b as u64, Relaxed);
+        }
+        if kind == circ::verif::kind::RECLAIM_DEFER && b > 0 {
+            REDEFERS.fetch_add(1, Relaxed);
+            let _ = c;
+        }
+    }
+}
+
+/// Bound on epoch advances between releasing the head and the last destructor (C06). Measured on
+/// the repaired tree over 400 seeds: at most 18 advances for a single 1024-chunk, 30 for two,
+/// about 8 per chunk for millions of nodes (a deferred attempt needs 3-4 advances, and stamps
+/// whose age is 14..18 mod 16 alias into the "recent" window and cost extra re-deferrals), so
+/// this leaves a factor of about two.
+pub fn bound(n: u64) -> u64 {
+    24 + 16 * n.div_ceil(1024)
+}
+
+pub fn gen(prop: &str, seed: u64, stack: bool) -> RunDesc {
+    let mut rng = Rng::new(seed);
+    let mut cfg = RunCfg::default();
+    cfg.quarantine = false;
+    cfg.strategy = 0;
+    cfg.p_switch = *rng.pick(&[0.02, 0.1, 0.3]);
+    cfg.start_epoch = match rng.below(8) {
+        0 => rng.below(4),
+        1 => (1u64 << 20) + rng.below(16),
+        _ => rng.below(64),
+    };
+    cfg.max_objects = *rng.pick(&[8u32, 64, 64]);
+    cfg.manual_interval = *rng.pick(&[8u32, 64, 64]);
+    let shape = rng.below(10); // 0..5 chain, 6..7 binary tree, 8 comb, 9 wide tree
+    let n: u64 = if stack {
+        *rng.pick(&[1000u64, 3000, 5000, 20_000, 100_000, 300_000, 1_000_000, 2_000_000])
+    } else {
+        match rng.below(12) {
+            0 => 1,
+            1 => 2,
+            2 => 17,
+            3 => 128,
+            4 => 1023,
+            5 => 1024,
+            6 => 1025,
+            7 => 3000,
+            8 => 20_000,
+            9 => 2049,
+            _ => 1 + rng.below(6000),
+        }
+    };
+    let age = if stack { 4 + rng.below(4) } else { *rng.pick(&[0u64, 1, 2, 3, 4, 5, 6, 8, 12, 13, 14, 15, 16, 17, 20, 30, 33, 40]) };
+    let writer = rng.below(4); // 0 From<Rc> (stamp 0), 1 store, 2 swap, 3 compare_exchange
+    let hold = if !stack && shape < 6 && n > 2 && rng.chance(0.4) { Some(1 + rng.below(n - 1)) } else { None };
+    let noise = if rng.chance(0.4) { 1 + rng.below(2) } else { 0 };
+    let stack_kib: u64 = if stack { *rng.pick(&[64u64, 128, 256, 512, 1024, 2048, 2048, 8192]) } else { 2048 };
+    let profile = if stack && rng.chance(0.35) { "dev" } else { "sim" };
+    cfg.step_cap = 2_000_000 + 60 * n;
+    let params = J::obj()
+        .set("n", n)
+        .set("shape", ["chain", "chain", "chain", "chain", "chain", "chain", "binary-tree", "binary-tree", "comb", "wide-tree"][shape as usize])
+        .set("age_rounds", age)
+        .set("link_writer", ["from_rc", "store", "swap", "compare_exchange"][writer as usize])
+        .set("hold_at", hold.map(|h| h as i64).unwrap_or(-1))
+        .set("noise_threads", noise)
+        .set("stack_kib", stack_kib)
+        .set("profile", profile)
+        .set("stack_check", stack)
+        .set("crash_tag", if stack { format!("stack<={}KiB/{}", stack_kib, profile) } else { String::new() });
+    let mut threads = vec![ThreadProg::new(0, vec![])];
+    threads[0].name = "destroyer".into();
+    threads[0].stack_kib = stack_kib as u32;
+    for _ in 0..noise {
+        let mut t = ThreadProg::new(0, crate::gen::ticker_ops(3 + rng.below(10) as usize));
+        t.name = "noise".into();
+        threads.push(t);
+    }
+    RunDesc { prop: prop.to_string(), family: if stack { "chain-stack" } else { "chain" }.into(), seed, cfg, threads, params, schedule: None, buggify_script: None }
+}
+
+fn link(parent: &Rc<CNode>, i: usize, child: Rc<CNode>, writer: u64) {
+    let cell = &parent.as_ref().unwrap().next[i];
+    let g = circ::cs();
+    match writer {
+        1 => cell.store(child, SeqCst, &g),
+        2 => drop(cell.swap(child, SeqCst)),
+        _ => {
+            let exp = cell.load(SeqCst, &g);
+            let _ = cell.compare_exchange(exp, child, SeqCst, SeqCst, &g);
+        }
+    }
+}
+
+fn node(id: u64, c0: Rc<CNode>, c1: Rc<CNode>, writer: u64) -> Rc<CNode> {
+    CREATED.fetch_add(1, Relaxed);
+    if writer == 0 {
+        Rc::new(CNode { next: [AtomicRc::from(c0), AtomicRc::from(c1)], id })
+    } else {
+        let r = Rc::new(CNode { next: [AtomicRc::null(), AtomicRc::null()], id });
+        if !c0.is_null() {
+            link(&r, 0, c0, writer);
+        }
+        if !c1.is_null() {
+            link(&r, 1, c1, writer);
+        }
+        r
+    }
+}
+
+/// Build a structure of n nodes; returns (head, held interior node or null).
+fn build(shape: &str, n: u64, writer: u64, hold_at: i64) -> (Rc<CNode>, Rc<CNode>) {
+    let mut held = Rc::null();
+    match shape {
+        "binary-tree" | "wide-tree" => {
+            // heap layout: node i has children 2i+1, 2i+2 (wide-tree: a degenerate left spine
+            // whose nodes all share... no sharing; just a different fill order)
+            let mut slots: Vec<Rc<CNode>> = (0..n).map(|_| Rc::null()).collect();
+            for i in (0..n as usize).rev() {
+                let c0 = if 2 * i + 1 < n as usize { std::mem::take(&mut slots[2 * i + 1]) } else { Rc::null() };
+                let c1 = if 2 * i + 2 < n as usize { std::mem::take(&mut slots[2 * i + 2]) } else { Rc::null() };
+                slots[i] = node(i as u64, c0, c1, writer);
+            }
+            (std::mem::take(&mut slots[0]), held)
+        }
+        "comb" => {
+            // a spine of n/2 nodes, each with a leaf on next[1]
+            let spine = (n / 2).max(1);
+            let mut head: Rc<CNode> = Rc::null();
+            let mut id = n;
+            for _ in 0..spine {
+                id -= 1;
+                let leaf = if id > 0 {
+                    id -= 1;
+                    node(id + 1_000_000_000, Rc::null(), Rc::null(), writer)
+                } else {
+                    Rc::null()
+                };
+                head = node(id, head, leaf, writer);
+            }
+            (head, held)
+        }
+        _ => {
+            let mut head: Rc<CNode> = Rc::null();
+            for i in (0..n).rev() {
+                head = node(i, head, Rc::null(), writer);
+                if i as i64 == hold_at {
+                    held = head.clone();
+                }
+            }
+            (head, held)
+        }
+    }
+}
+
+fn round() {
+    let g = circ::cs();
+    g.flush();
+    drop(g);
+}
+
+struct Report {
+    rounds: u64,
+    e0: u64,
+    e1: u64,
+}
+
+/// release `head` and run janitor rounds until `target` destructors have run (or give up)
+fn release_and_wait(head: Rc<CNode>, target: u64, max_rounds: u64) -> Report {
+    let e0 = crate::runner::clock();
+    drop(head);
+    let mut rounds = 0;
+    while DROPS.load(Relaxed) < target && rounds < max_rounds {
+        round();
+        rounds += 1;
+    }
+    Report { rounds, e0, e1: LAST_DROP_EPOCH.load(Relaxed).max(e0) }
+}
+
+fn destroyer(desc: &RunDesc, out: &mut Vec<(String, String)>, fam: &mut J) {
+    let p = &desc.params;
+    let n = p.getu("n");
+    let shape = p.gets("shape").to_string();
+    let writer = ["from_rc", "store", "swap", "compare_exchange"].iter().position(|w| *w == p.gets("link_writer")).unwrap_or(0) as u64;
+    let hold_at = p.geti("hold_at");
+    let stack_check = p.getb("stack_check");
+    let mut soft = |sig: &str, det: String| {
+        if !out.iter().any(|s| s.0 == sig) {
+            out.push((sig.to_string(), det));
+        }
+    };
+    // C07 reference: the stack a 2048-node chain needs (reaches the depth cap)
+    let mut ref_span = 0usize;
+    if stack_check {
+        let (h, _) = build("chain", 2048, 1, -1);
+        for _ in 0..5 {
+            round();
+        }
+        let r = release_and_wait(h, 2048, 400);
+        if DROPS.load(Relaxed) != 2048 {
+            soft("nodes-not-reclaimed", format!("reference chain: only {} of 2048 nodes destructed after {} rounds", DROPS.load(Relaxed), r.rounds));
+        }
+        ref_span = STACK_MAX.load(Relaxed).saturating_sub(STACK_MIN.load(Relaxed));
+        DROPS.store(0, Relaxed);
+        CREATED.store(0, Relaxed);
+        STACK_MIN.store(usize::MAX, Relaxed);
+        STACK_MAX.store(0, Relaxed);
+        MAX_DEPTH_SEEN.store(0, Relaxed);
+    }
+    user_yield();
+    let (head, held) = build(&shape, n, writer, hold_at);
+    let total = CREATED.load(Relaxed);
+    for _ in 0..p.getu("age_rounds") {
+        round();
+    }
+    user_yield();
+    let max_rounds = 40 * bound(total) + 200;
+    if !held.is_null() {
+        let h = hold_at as u64;
+        HELD_FROM.store(h, Relaxed);
+        let r = release_and_wait(head, h, max_rounds);
+        // a few more rounds: nothing at or behind the held node may be destructed
+        for _ in 0..8 {
+            round();
+        }
+        let d = DROPS.load(Relaxed);
+        if HELD_VIOLATED.load(Relaxed) != u64::MAX || d > h {
+            soft("held-node-destructed", format!("node {} (still referenced from elsewhere) or a node behind it was destructed: {} destructors ran, held from {}", HELD_VIOLATED.load(Relaxed), d, h));
+        } else if d < h {
+            soft("C06-prefix-not-reclaimed", format!("only {} of the {} nodes before the held node were destructed after {} rounds", d, h, r.rounds));
+        } else {
+            let adv = r.e1 - r.e0;
+            fam.put("prefix_advances", adv);
+            if adv > bound(h) {
+                soft("latency-exceeds-bound", format!("{} nodes before a held node needed {} epoch advances (bound {})", h, adv, bound(h)));
+            }
+        }
+        HELD_FROM.store(u64::MAX, Relaxed);
+        let r2 = release_and_wait(held, total, max_rounds);
+        let adv2 = r2.e1 - r2.e0;
+        fam.put("suffix_advances", adv2);
+        if DROPS.load(Relaxed) == total && adv2 > bound(total - h) {
+            soft("latency-exceeds-bound", format!("suffix of {} nodes needed {} epoch advances after its holder let go (bound {})", total - h, adv2, bound(total - h)));
+        }
+        fam.put("rounds", r.rounds + r2.rounds);
+    } else {
+        let r = release_and_wait(head, total, max_rounds);
+        let adv = r.e1 - r.e0;
+        fam.put("advances", adv);
+        fam.put("rounds", r.rounds);
+        fam.put("bound", bound(total));
+        if DROPS.load(Relaxed) == total && adv > bound(total) && !stack_check {
+            soft("latency-exceeds-bound", format!("{} of {} nodes ({}, links by {}, aged {} rounds) needed {} epoch advances after the head was released (bound {})", shape, total, shape, p.gets("link_writer"), p.getu("age_rounds"), adv, bound(total)));
+        }
+    }
+    for _ in 0..6 {
+        round();
+    }
+    let d = DROPS.load(Relaxed);
+    if d != total {
+        soft("nodes-not-reclaimed", format!("{} of {} nodes destructed at the end (each must be destructed exactly once)", d, total));
+    }
+    let span = STACK_MAX.load(Relaxed).saturating_sub(STACK_MIN.load(Relaxed));
+    fam.put("stack_span_bytes", span);
+    fam.put("ref_span_bytes", ref_span);
+    fam.put("max_depth", MAX_DEPTH_SEEN.load(Relaxed));
+    fam.put("redefers", REDEFERS.load(Relaxed));
+    fam.put("nodes", total);
+    if stack_check && ref_span > 0 && span > ref_span + ref_span / 8 + 4096 {
+        soft("stack-grows-with-size", format!("destroying {} nodes ({}) used {} bytes of stack, a 2048-node chain {} bytes: stack use is not bounded by the depth cap", total, shape, span, ref_span));
+    }
+    if MAX_DEPTH_SEEN.load(Relaxed) > 1024 {
+        soft("recursion-deeper-than-cap", format!("cascade recursion reached depth {}", MAX_DEPTH_SEEN.load(Relaxed)));
+    }
+}
+
+pub fn run(desc: &RunDesc) -> ! {
+    crate::runner::init_library(&desc.cfg);
+    let d = Arc::new(desc.clone());
+    let result: Arc<std::sync::Mutex<(Vec<(String, String)>, J)>> = Arc::new(std::sync::Mutex::new((Vec::new(), J::obj())));
+    let mut specs = Vec::new();
+    {
+        let d = d.clone();
+        let result = result.clone();
+        specs.push(ThreadSpec {
+            phase: 0,
+            stack: (desc.threads[0].stack_kib as usize) << 10,
+            name: "destroyer",
+            body: Arc::new(move |_tid| {
+                let mut out = Vec::new();
+                let mut fam = J::obj();
+                destroyer(&d, &mut out, &mut fam);
+                *result.lock().unwrap() = (out, fam);
+            }),
+        });
+    }
+    for t in desc.threads.iter().skip(1) {
+        let ops = t.ops.clone();
+        specs.push(ThreadSpec {
+            phase: 0,
+            stack: 1 << 20,
+            name: "noise",
+            body: Arc::new(move |_tid| {
+                let mut g: Option<circ::Guard> = None;
+                for (i, o) in ops.iter().enumerate() {
+                    sched::set_op(i as u32);
+                    user_yield();
+                    match o.k {
+                        K::Pin => g = Some(circ::cs()),
+                        K::Flush => {
+                            if let Some(g) = &g {
+                                g.flush()
+                            }
+                        }
+                        K::Unpin => g = None,
+                        _ => {}
+                    }
+                }
+            }),
+        });
+    }
+    let n = specs.len();
+    let sc = crate::runner::sim_config(desc, n);
+    sched::run(sc, Box::new(CMon), specs, Some(crate::runner::clock));
+    let (softs, fam) = result.lock().unwrap().clone();
+    let prop = desc.prop.clone();
+    crate::runner::set_extra("fam", fam);
+    let attributed: Vec<(String, String, String)> = softs
+        .iter()
+        .map(|(s, d)| {
+            let p = if s.starts_with("stack") || s.starts_with("recursion") { "C07" } else if s.starts_with("latency") || s.starts_with("held") || s.starts_with("C06") { "C06" } else { prop.as_str() };
+            (p.to_string(), format!("{}/{}", p, s), d.clone())
+        })
+        .collect();
+    crate::runner::set_extra("soft", J::Arr(attributed.iter().map(|(p, s, d)| J::obj().set("prop", p.as_str()).set("props", J::Arr(vec![J::Str(p.clone())])).set("signature", s.as_str()).set("detail", d.as_str()).set("seq", 0)).collect()));
+    let outcome = match attributed.first() {
+        Some((p, s, d)) => Outcome::Violation(Violation { prop: p.clone(), kind: "soft".into(), signature: s.clone(), detail: d.clone(), seq: sim().seq }),
+        None => Outcome::Ok,
+    };
+    sim().finish(outcome)
 }
